@@ -285,7 +285,37 @@ def build_state(case):
 
 def snapshot(s):
     s.f.flush()
-    return walker.walk(s.f), rawdigest.digest(s.f._h5file)
+    w = walker.walk(s.f)
+    # session-level settings of the File object: a refused call must not change them either
+    w["$session"] = {"auto_update_timestamps": s.f.auto_update_timestamps, "mode": str(s.f.mode), "is_open": s.f.is_open()}
+    return w, rawdigest.digest(s.f._h5file)
+
+
+def probe_after_refusals(r, s, case):
+    """after the refused calls of this state: the session still behaves like a fresh one - an attribute change
+    stamps the entity with the current time (automatic timestamps are on) and is there after reopening"""
+    ctx = Ctx(s.f)
+    if ctx.b is None:
+        return
+    env.CLOCK.advance(11)
+    now = env.CLOCK()
+    r.evals += 1
+    try:
+        ctx.b.definition = "probe-after-refusals"
+        got = ctx.b.updated_at
+        if got != now:
+            r.viol("C12|after-refused-calls|attribute-change-does-not-stamp",
+                   "after the refused calls of this state a definition change left updated_at at %r (clock %r)" % (got, now),
+                   {"state": case})
+            return
+        s.reopen("rw")
+        b = s.f.blocks[0]
+        if b.definition != "probe-after-refusals" or b.updated_at != now:
+            r.viol("C12|after-refused-calls|attribute-change-lost-after-reopen",
+                   "the attribute change made after the refused calls is not there after reopening", {"state": case})
+    except Exception as e:  # noqa
+        r.viol("C12|after-refused-calls|valid-call-raises-%s" % type(e).__name__,
+               "after the refused calls a valid attribute change raises %s: %s" % (type(e).__name__, str(e)[:120]), {"state": case})
 
 
 def run_case(case):
@@ -349,6 +379,7 @@ def run_case(case):
             if dirty:
                 s.close()
                 s = build_state(case)
+        probe_after_refusals(r, s, case)
         r.traces = 1
         return r
     finally:
